@@ -1,6 +1,7 @@
 import TTModel.Proto
 import TTModel.C17_Codec
 import TTModel.C17_Resume
+import TTModel.C17_Reinject
 import TTGen.C17_StateKeys
 /-!
 C17 driver.  Values cross the pipe as a prefix token stream (space separated):
@@ -18,6 +19,7 @@ Ops:
   classok <class>          -> 1/0
   loop <name> <iters> <k>  -> saved counter and the labels the restarted run visits
   tables                   -> names of generated classes and loops
+  reinject <dflt> <spec json> || <saved entry json>  -> `ok <val>` | `raise`: Parameter.from_json(update_parameters(spec))
 -/
 open TT.C17 TT.Proto
 
@@ -252,6 +254,17 @@ def handle (line : String) : String :=
       let labels := (resumedRun (fun _ (s : Nat) => s) n c 0).map (·.1)
       s!"counter {c} labels {",".intercalate (labels.map toString)}"
     | _, _, _ => "bad-op"
+  | "reinject" :: dflt :: ws =>
+    match parseDT dflt, ws.splitOn "||" with
+    | some d, [a, b] =>
+      match fullJson a, fullJson b with
+      | some spec, some (.obj saved) =>
+        let ck := fun (i : String) => match saved.lookup "id" with
+          | some (.str j) => if i = j then some saved else none
+          | _ => none
+        showOpt (paramFromSpec d (updateParams ck spec))
+      | _, _ => "bad-op"
+    | _, _ => "bad-op"
   | ["tables"] =>
     let cs := TTGen.C17_StateKeys.classes.map (·.name)
     let ls := TTGen.C17_StateKeys.loops.map (·.name)
